@@ -1,6 +1,6 @@
 /* c06_pool.c -- C06: scripts over the real mps_thread_pool API under the deterministic
  * scheduler shim (vf_sched).  Every run prints its trace as a block
- *     # run <seq> script <s> status <st> rc <rc> cost <c> what <w> sched <csv>
+ *     # run <seq> script <s> status <st> rc <rc> cost <c> div <d> what <w> sched <csv>
  *     <trace lines>
  *     # end
  * on stdout (consumed by bin/pool, the extracted model).  Harness-level facts (the
@@ -17,7 +17,7 @@
  *   one further task from inside the worker.
  *
  * usage: c06_pool --script "n2 a2 w f" (--dfs B [--free-switch] [--shard i/n] | --random N | --pct N [--depth d]
- *                  | --replay csv) [--seed S] [--spurious K] [--max-runs N] [--quiet]
+ *                  | --replay csv | --follow tids) [--seed S] [--spurious K] [--max-runs N] [--quiet]
  */
 #include <stdio.h>
 #include <stdlib.h>
@@ -44,7 +44,7 @@ static void *task_body (void *p)
     vf_event ("assign", a->child);
     handed[a->child] = 1;
     mps_thread_pool_assign (fake, pool, task_body, &targs[a->child]);
-    vf_event ("assign_ret", a->child);
+    vf_event ("assign_ret", 0);
   }
   done_[a->id] = 1;
   vf_event ("end", a->id);
@@ -67,7 +67,7 @@ static int scenario (void *unused)
         vf_event ("new", k);
         pool = mps_thread_pool_new (fake, k);
         fake->pool = pool;
-        vf_event ("new_ret", k);
+        vf_event ("new_ret", 0);
         break;
       case 's': vf_event ("strict", 1); mps_thread_pool_set_strict_async (pool, true); break;
       case 'S': vf_event ("strict", 0); mps_thread_pool_set_strict_async (pool, false); break;
@@ -79,7 +79,7 @@ static int scenario (void *unused)
           vf_event ("assign", t);
           handed[t] = 1;
           mps_thread_pool_assign (fake, pool, task_body, &targs[t]);
-          vf_event ("assign_ret", t);
+          vf_event ("assign_ret", 0);
         }
         break;
       case 'w':
@@ -94,7 +94,7 @@ static int scenario (void *unused)
       case 'l':
         vf_event ("setlimit", k);
         mps_thread_pool_set_concurrency_limit (fake, pool, (unsigned) k);
-        vf_event ("setlimit_ret", k);
+        vf_event ("setlimit_ret", 0);
         break;
       case 'f':
         vf_event ("free", 0);
@@ -117,7 +117,7 @@ static int on_run (const vf_run *r, void *user)
   strncpy (script_us, script, 255); script_us[255] = 0; for (i = 0; script_us[i]; i++) if (script_us[i] == ' ') script_us[i] = '_';
   a->runs++; if (r->status != 0 || r->rc != 0) a->bad++;
   if (quiet && r->status == 0 && r->rc == 0) return 0;
-  printf ("# run %ld script %s status %d rc %d cost %d what %s sched ", a->runs - 1, script_us, r->status, r->rc, r->cost, (r->what && r->what[0]) ? r->what : "-");
+  printf ("# run %ld script %s status %d rc %d cost %d div %d what %s sched ", a->runs - 1, script_us, r->status, r->rc, r->cost, r->diverged, (r->what && r->what[0]) ? r->what : "-");
   for (i = 0; i < r->n_schedule; i++) printf ("%s%d", i ? "," : "", r->schedule[i]);
   if (r->n_schedule == 0) printf ("-");
   printf ("\n");
@@ -140,6 +140,7 @@ int main (int argc, char **argv)
     else if (!strcmp (argv[i], "--pct") && i + 1 < argc) npct = atol (argv[++i]);
     else if (!strcmp (argv[i], "--depth") && i + 1 < argc) depth = atoi (argv[++i]);
     else if (!strcmp (argv[i], "--replay") && i + 1 < argc) replay = argv[++i];
+    else if (!strcmp (argv[i], "--follow") && i + 1 < argc) { static uint8_t fb[8192]; int n = vf_parse_schedule (argv[++i], fb, 8192); vf_sched_set_follow (fb, n); if (!replay) replay = "-"; }
     else if (!strcmp (argv[i], "--seed") && i + 1 < argc) seed = strtoul (argv[++i], NULL, 10);
     else if (!strcmp (argv[i], "--spurious") && i + 1 < argc) spurious = atoi (argv[++i]);
     else if (!strcmp (argv[i], "--max-runs") && i + 1 < argc) max_runs = atol (argv[++i]);
